@@ -271,7 +271,10 @@ func (s *IndexedState) Add(ctx *Context, id string, x Map) (string, error) {
 		return "", err
 	}
 
-	js, err := json.Marshal(&x)
+	// Store the prepared fact, not the given map: a relative "ttl"
+	// has become an absolute "expires" there, which is what must
+	// survive a reload.
+	js, err := json.Marshal(s.IdToFact[id])
 	if err != nil {
 		return "", err
 	}
